@@ -231,13 +231,6 @@ _set_setstate(Bucket *self, PyObject *args)
     UNLESS (PyArg_ParseTuple(args, "O|O", &items, &next))
         return -1;
 
-    /* the successor is followed as a C struct: it has to be a set */
-    if (next && !PyObject_TypeCheck(next, &SetType)) {
-        PyErr_SetString(PyExc_TypeError,
-                        "the successor in a set state must be a set");
-        return -1;
-    }
-
     if (!PyTuple_Check(items)) {
         PyErr_SetString(PyExc_TypeError,
                         "tuple required for first state element");
